@@ -452,6 +452,95 @@ def check_seed(ctx):
         raise AnalysisError('who-may-draw scanner lost its positive example (time.time in seed_random)')
 
 
+EVAL_METHODS = ('get_propensity', 'get_volume_propensity', 'get_stochastic_propensity', 'get_stochastic_volume_propensity',
+                'evaluate', 'volume_evaluate', 'get_delay', 'rule_operation', 'rule_volume_operation', 'execute_rule', 'execute_volume_rule',
+                'get_volume_step', 'cell_divided')
+
+
+def check_pure_evaluation(ctx):
+    """Rate laws, expression nodes, delays, rules and volume models are evaluated many times per run and across runs: what they return
+    may depend on their arguments and on the object's configuration only.  So the evaluation methods of these classes never assign an
+    attribute of the object (no memo, no "last value" cache), and the module that defines them keeps no module-level state."""
+    prog = ctx.prog
+    roots = ('Propensity', 'Term', 'Delay', 'Rule', 'Volume')
+    classes = set()
+    for r in roots:
+        classes.add(r)
+        classes |= {c for c in prog.subclasses(r) if prog.classes[c].module in ('types', 'lineage')}
+    bad = []
+    n = 0
+    for cls in sorted(classes):
+        ci = prog.classes.get(cls)
+        if ci is None:
+            continue
+        for mname in EVAL_METHODS:
+            fn = ci.methods.get(mname) if hasattr(ci, 'methods') else None
+            if fn is None:
+                continue
+            n += 1
+            ctx.functions.add('%s:%s.%s' % (ci.module, cls, mname))
+            for node in ast.walk(fn):
+                if isinstance(node, (ast.Assign, ast.AugAssign, ast.AnnAssign)):
+                    for t in (node.targets if isinstance(node, ast.Assign) else [node.target]):
+                        base = t
+                        while isinstance(base, ast.Subscript):
+                            base = base.value
+                        if isinstance(base, ast.Attribute) and src(base).startswith('self.'):
+                            bad.append('%s.%s assigns %s (%s)' % (cls, mname, src(t), prog.where(ci.module, node)))
+                if isinstance(node, ast.Global):
+                    bad.append('%s.%s declares global %s' % (cls, mname, ', '.join(node.names)))
+    if n < 40:
+        raise AnalysisError('anchor vanished: only %d evaluation methods found' % n)
+    ctx.ob('R8.7-pure-evaluation', 'methods', not bad, 'bioscrape/types.pyx, lineage/lineage.pyx',
+           'no evaluation method of a propensity, expression node, delay, rule or volume model assigns an attribute of its object or a global '
+           '(%d methods scanned)' % n, '; '.join(bad[:4]))
+    # the model's read accessors (species order, indices, values, dictionaries) answer from the definition as it is now: they keep
+    # nothing that a later edit could leave stale
+    stale = []
+    n_get = 0
+    for cls in ('Model', 'LineageModel'):
+        ci = prog.classes.get(cls)
+        for mname, fn in sorted(ci.methods.items()):
+            if mname.startswith('get_') or mname.startswith('py_get_'):
+                n_get += 1
+                for st_ in util.self_stores(fn):
+                    # a cache is sound only if everything that edits the definition (clears `initialized`) resets it too
+                    tg = [t_ for t_ in (st_.targets if isinstance(st_, ast.Assign) else [getattr(st_, 'target', None)]) if t_ is not None]
+                    attr = None
+                    for t_ in tg:
+                        b_ = t_
+                        while isinstance(b_, ast.Subscript):
+                            b_ = b_.value
+                        if isinstance(b_, ast.Attribute):
+                            attr = src(b_)
+                    editors = [(c2, n2, f2) for c2 in prog.mro(cls) for n2, f2 in prog.classes[c2].methods.items()
+                               if any(clears_flag(x) for x in ast.walk(f2) if isinstance(x, ast.stmt))]
+                    unreset = [n2 for c2, n2, f2 in editors if not any(
+                        isinstance(x, ast.Assign) and any(src(t2) == attr for t2 in x.targets) for x in ast.walk(f2))]
+                    if attr is None or unreset or not editors:
+                        stale.append('%s.%s keeps `%s` (%s), which %s' % (cls, mname, util.stmt_key(st_)[:50], prog.where(ci.module, st_),
+                                     'is not reset by the editing method(s) %s' % ', '.join(sorted(set(unreset))[:4]) if unreset else 'nothing resets'))
+    if n_get < 15:
+        raise AnalysisError('anchor vanished: only %d model accessors found' % n_get)
+    ctx.ob('R8.7-pure-evaluation', 'model-accessors', not stale, 'bioscrape/types.pyx, lineage/lineage.pyx',
+           'whatever a get_* accessor of Model / LineageModel keeps in the object is reset by every method that edits the definition '
+           '(%d accessors scanned; today none keeps anything)' % n_get,
+           '; '.join(stale[:3]))
+    g = []
+    for m in ('types',):
+        for node in ast.walk(prog.mod(m).tree):
+            if isinstance(node, ast.Global):
+                fn = node
+                while fn is not None and not isinstance(fn, ast.FunctionDef):
+                    fn = getattr(fn, '_parent', None)
+                g.append('%s: %s declares global %s (%s)' % (m, fn.name if fn else '<module>', ', '.join(node.names), prog.where(m, node)))
+    seen = any(isinstance(node, ast.Global) for node in ast.walk(prog.mod('simulator').tree))
+    if not seen:
+        raise AnalysisError('global-statement scanner lost its positive example (simulator.pyx)')
+    ctx.ob('R8.7-pure-evaluation', 'module-state', not g, 'bioscrape/types.pyx',
+           'the module that defines models, rate laws and rules keeps no module-level variable that functions assign', '; '.join(g[:3]))
+
+
 def check_globals(ctx, f):
     en = paths.Enumerator(limit=50000)
     # only the prefix up to the integration loop matters
@@ -485,6 +574,7 @@ def check(ctx):
     f = check_copies(ctx)
     check_seed(ctx)
     check_globals(ctx, f)
+    check_pure_evaluation(ctx)
     ctx.floor('R8.1-invalidate', 7)
     ctx.floor('R8.2-stale-refused', 7)
     ctx.floor('R8.3-rebuild', 10)
